@@ -10,7 +10,7 @@ pcr  <fwd> <rev> <ef> <er> <min> <max> <ext> <full> <circ> <tpl>[,<tpl>...]
           — every field but the coordinates and the nucleotides is READ FROM THE ANNOTATION MAP of the amplicon (`annotate`);
           `others` = the remaining keys, sorted, `hexname=i<int>` / `hexname=s<hex>` joined by ";" ("-" = none).
           Convention: template number k of a `pcr` line carries the annotations `tplAnnot k`, the template of a `cli` line
-          `tplAnnot 1`, the one of a `frag` line `tplAnnot 0`
+          `tplAnnot 1`, piece number k of a `frag` line `tplAnnot k` (the pieces are given to `PCRSlice` as new templates)
 frag <fwd> <rev> <e> <min> <max> <ext> <full> <minsize> <length> <overlap> <tpl>
        -> <fragment coordinates a..b,… | whole> <amplicons per fragment as above>
 cli  <fwd> <rev> <e> <min> <max> <delta> <full> [<circ> <frag>] <tpl>      (default: circ = 0, frag = 1)
@@ -139,7 +139,7 @@ def run (line : String) : String :=
             | some l => ",".intercalate (l.map fun (ab : Nat × Nat) => s!"{ab.1 + 1}..{ab.2}")
           match pcrSlice P o pieces with
           | .error b => showBad b
-          | .ok per => s!"{names} {"|".intercalate (per.map (showList fw rv (tplAnnot 0)))}"
+          | .ok per => s!"{names} {showPer fw rv per}"
         | _, _ => "bad-op"
     | _, _, _, _, _, _, _, _, _, _, _ => "bad-op"
   | ["cli", fw, rv, e, mn, mx, delta, full, tpl] => runCli fw rv e mn mx delta full "0" "1" tpl
